@@ -1,3 +1,4 @@
 //! Reference models = the oracles. Written from the property statements, RFC 8536 and POSIX;
 //! they share no code with tz-rs and use different algorithms on purpose.
 pub mod cal;
+pub mod text;
